@@ -878,7 +878,8 @@ def _inline_new_class_constants(P, base):
 
 def _dataclass_fields(P, m, c):
     cls = P.classes.get((m, c))
-    if cls is None or not any('dataclass' in ast.unparse(d) for d in cls.decorator_list):
+    named_tuple = cls is not None and any(ast.unparse(b).split('.')[-1] == 'NamedTuple' for b in cls.bases)
+    if cls is None or not (any('dataclass' in ast.unparse(d) for d in cls.decorator_list) or named_tuple):
         return None
     if P.find_member(m, c, '__init__') or P.find_member(m, c, '__post_init__'):
         return None
